@@ -15,7 +15,7 @@
 //!   prints one token per call: `o` new, `b<off>:<len>` blob, `b<off>:<len>[ b<off>:<len>]` image (`b?:<len>` while
 //!   the offset is not known: the file was not finalized), `p<off>:<n>` (`p?:<n>`), `d<n>` dropped point-cloud writer,
 //!   `e<Kind>`, `P`, then `o` for finalize, then
-//!   ` | ops= len= h= wlog= finops=<ops when the last call returned (Drop follows)|-> logmark=<log length when finalize was called|->`
+//!   ` | ops= len= h= wlog= finops=<ops when the last call returned (Drop follows)|-> logmark=<log length when finalize was called|-> callops=<ops after each call>`
 //!   `[ log=<pos>:<hex>,...] [ dev=<hex>] xml=<hex>`
 //! CRD <fault> <chunks> <dev> [B:<off>:<len>...]      (implementation only)
 //!   open, list point clouds and images, read every point cloud raw, every image blob, the given blobs:
@@ -128,13 +128,14 @@ fn image_blobs(img: &e57::Image, kind: &str) -> Option<(Blob, Option<Blob>)> {
     }
 }
 
-fn trailer(dev: &Dev, finops: Option<u64>, logmark: Option<usize>, flags: &[&str], xml_hex: &str) -> String {
+fn trailer(dev: &Dev, finops: Option<u64>, logmark: Option<usize>, callops: &[u64], flags: &[&str], xml_hex: &str) -> String {
     let o = |x: Option<String>| x.unwrap_or_else(|| "-".to_string());
     let mut s = format!(
-        "{} finops={} logmark={}",
+        "{} finops={} logmark={} callops={}",
         dev_summary(dev),
         o(finops.map(|x| x.to_string())),
-        o(logmark.map(|x| x.to_string()))
+        o(logmark.map(|x| x.to_string())),
+        callops.iter().map(|x| x.to_string()).collect::<Vec<_>>().join(",")
     );
     if flags.contains(&"log") {
         let st = dev.0.borrow();
@@ -157,15 +158,17 @@ fn run_cwlog(toks: &[&str]) -> String {
     let dev = Dev::new(Vec::new(), fault).with_chunks(chunks);
     let w = guard(|| E57Writer::new(dev.clone(), "file-guid"));
     let mut w = match w {
-        None => return format!("new:P | {}", trailer(&dev, None, None, &flags, "")),
+        None => return format!("new:P | {}", trailer(&dev, None, None, &[], &flags, "")),
         Some(Err(e)) => {
             // the model distinguishes PagedWriter::new (one device operation) from the header write
             let first = if fault == Some(0) { "new:e" } else { "e" };
-            return format!("{}{} | {}", first, err_name(&e), trailer(&dev, None, None, &flags, ""));
+            return format!("{}{} | {}", first, err_name(&e), trailer(&dev, None, None, &[], &flags, ""));
         }
         Some(Ok(w)) => w,
     };
     let mut outs = vec!["o".to_string()];
+    // device operations issued when each library call (new, every item, finalize) returned
+    let mut callops: Vec<u64> = vec![dev.ops()];
     let mut pc_slots: Vec<usize> = Vec::new();
     let mut img_slots: Vec<(usize, String, bool)> = Vec::new();
     let mut stopped = false;
@@ -228,6 +231,7 @@ fn run_cwlog(toks: &[&str]) -> String {
         };
         let failed = is_failure(&o);
         outs.push(o);
+        callops.push(dev.ops());
         if failed && stop {
             stopped = true;
             break;
@@ -240,6 +244,7 @@ fn run_cwlog(toks: &[&str]) -> String {
         let o = res_s(guard(|| w.finalize()), |_| "o".to_string());
         fin_ok = o == "o";
         outs.push(o);
+        callops.push(dev.ops());
     }
     // operations issued when the last library call returned: what follows happens in Drop
     let finops = Some(dev.ops());
@@ -271,7 +276,7 @@ fn run_cwlog(toks: &[&str]) -> String {
             }
         }
     }
-    format!("{} | {}", outs.join(" "), trailer(&dev, finops, logmark, &flags, &xml_hex))
+    format!("{} | {}", outs.join(" "), trailer(&dev, finops, logmark, &callops, &flags, &xml_hex))
 }
 
 /// all points, untruncated (the crash oracle compares point prefixes)
